@@ -358,6 +358,24 @@ Section Dispatch.
     Play.play pst Pay string string (option string) (prouter fuel ds).
 End Dispatch.
 
+(* ------------------------------------------------------------------ boolean guards on a list of components
+   (hypotheses of the C05/C06 theorems; evaluated by vm_compute on the components extracted from
+   the tree under test, gen/DispatchData.v) *)
+Section Guards.
+  Variables Ent Pay : Type.
+  Notation component := (component Ent Pay).
+  Definition addr_unbound (a : string) (cs : list component) : bool :=
+    forallb (fun c => negb (existsb (String.eqb a) (bound_addrs Ent Pay c))) cs.
+  Definition clock_unbound (cs : list component) : bool := addr_unbound clock_addr cs.
+  Definition addons_no_elapse (cs : list component) : bool :=
+    forallb (fun c => forallb (fun ad => negb (String.eqb (sig_of Pay (ad_action Pay ad)) "*.elapse")) (c_addons Ent Pay c)) cs.
+  Fixpoint distinctb (l : list string) : bool :=
+    match l with [] => true | x :: r => negb (existsb (String.eqb x) r) && distinctb r end.
+  Definition names_distinct (cs : list component) : bool := distinctb (map (c_name Ent Pay) cs).
+  Definition keys_nonempty (cs : list component) : bool :=
+    forallb (fun c => forallb (fun kv => negb (String.eqb (fst kv) "")) (c_maps Ent Pay c)) cs.
+End Guards.
+
 Arguments ev_name {Pay}. Arguments ev_pay {Pay}. Arguments ev_method {Pay}. Arguments ev_tag {Pay}.
 Arguments ev_handler {Pay}. Arguments Build_event {Pay}.
 Arguments a_name {Pay}. Arguments a_method {Pay}. Arguments a_pay {Pay}. Arguments a_addon {Pay}.
